@@ -142,6 +142,18 @@ theorem reset_back_at_initial_condition {V : Type} (cfg : Cfg ℚ) (add : V → 
   simp only [DV.Run.reset, DV.Loop.reset, h2, h3]
   simp
 
+/-- **After `reset()`, whatever happened before, integrating again reproduces what a freshly constructed system with the same
+settings produces** - the times, the STATES and the step, for every earlier history of `integrate(t)` calls and every later sequence of
+calls (whole-run model `DV.Run`, fixed-step methods, any right-hand side; exact arithmetic - the implementation's bit-for-bit clause is
+the harness's comparison).  Buffer capacity and status, the only things in which the two systems differ, do not influence what is
+recorded (`loop_cap_irrel`), and the states are a function of the recorded times. -/
+theorem reset_then_rerun_equals_fresh {V : Type} (cfg : Cfg ℚ) (add : V → V → V) (inc : ℚ → V → ℚ → V) (fuel : Nat) (t0 tf dt : ℚ) (y0 : V)
+    (before after : List ℚ) :
+    let r := DV.Run.calls cfg add inc fuel (DV.Run.reset (DV.Run.calls cfg add inc fuel (DV.Run.construct t0 tf dt y0) before)) after
+    let f := DV.Run.calls cfg add inc fuel (DV.Run.construct t0 tf dt y0) after
+    r.sys.ts = f.sys.ts ∧ r.ys = f.ys ∧ r.sys.dt = f.sys.dt :=
+  DVP.RunSplit.reset_then_calls_eq_fresh cfg add inc fuel t0 tf dt y0 before after
+
 /-- non-vacuity: Euler on `y' = y`, `dt = 1/4`, `integrate(1/2); integrate(9/8)` against `integrate(9/8)` -/
 example : (DV.Run.calls (α := ℚ) (V := ℚ) { eps := 1/2^50, tolEps := 1/2^47, half := 1/2 } (· + ·)
       (fun _ y h => y * h) 10 (DV.Run.construct 0 2 (1/4) 1) [1/2, 9/8]).ys =
